@@ -12,8 +12,11 @@ import (
 // ClosedSnapshot checks one Get result instance by instance: an installed group's next-hops and an installed
 // entry's group (when it lives in the same instance) are installed too.  The server keeps this true of every
 // instance at every moment (C02), and a Get reads an instance under its lock, so it holds of every Get result
-// whatever runs concurrently.
-func ClosedSnapshot(items []*spb.AFTEntry) string {
+// whatever Modify sessions run concurrently.  A concurrent Flush is different: AddEntry decides that an entry is
+// resolvable and installs it in two steps, and a Flush in between removes what it depends on (the installed
+// entry then dangles until it is flushed or deleted - no property speaks about Flush overlapping modifications,
+// C11 excludes it explicitly), so with a Flush caller around only "no key twice" is required (closure = false).
+func ClosedSnapshot(items []*spb.AFTEntry, closure bool) string {
 	type ni struct {
 		nh, nhg map[uint64]bool
 		members map[uint64][]uint64
@@ -56,6 +59,9 @@ func ClosedSnapshot(items []*spb.AFTEntry) string {
 			return "one Get result carries " + key + " twice"
 		}
 		seen[key] = true
+	}
+	if !closure {
+		return ""
 	}
 	names := []string{}
 	for n := range by {
@@ -135,7 +141,7 @@ func SnapshotStress(seed int64, cycles int, flush bool) (problem string, stats m
 					fail("Get failed: " + gerr.Error())
 					return
 				}
-				if p := ClosedSnapshot(items); p != "" {
+				if p := ClosedSnapshot(items, !flush); p != "" {
 					fail(p)
 					return
 				}
